@@ -167,3 +167,57 @@ Example C13_nonvacuous :
   let c := mkcurve (mkkv [0; 0; 0; 1#2; 1; 1; 1] 2) (Some [[1]; [3#2]; [-1#3]; [-3]]) None in
   c_eq a b = Ok true /\ c_eq b a = Ok true /\ c_eq a c = Ok false /\ c_eq c a = Ok false.
 Proof. vm_compute. repeat split. Qed.
+
+From NurbsV Require Import Spec.BSpline Proofs.Local Proofs.LinIndep Proofs.LinIndepCurves.
+From NurbsV Require Proofs.UnionProofs.
+(* ---- completeness at equal degree (Proofs/LinIndepCurves.v): two polynomial curves of the same degree that are the same
+   function compare equal - both refined copies are knot insertions into the union vector (C04), they represent the same
+   function over the same vector, so by linear independence their control points coincide. ---- *)
+Theorem C13_complete_equal_degree :
+  forall (a b : curve) (Pa0 Pb0 : list pt) (d : nat) (r : bool),
+       cW a = None ->
+       cP a = Some Pa0 ->
+       WF (kvec (ckv a)) (cdeg a) ->
+       length Pa0 = cnpts a ->
+       Forall (fun q : pt => length q = d) Pa0 ->
+       cW b = None ->
+       cP b = Some Pb0 ->
+       WF (kvec (ckv b)) (cdeg b) ->
+       length Pb0 = cnpts b ->
+       Forall (fun q : pt => length q = d) Pb0 ->
+       cdeg b = cdeg a ->
+       UnionProofs.separated (kvec (ckv a) ++ kvec (ckv b)) ->
+       first_q (kvec (ckv a)) == first_q (kvec (ckv b)) ->
+       last_q (kvec (ckv a)) == last_q (kvec (ckv b)) ->
+       (forall u : Q,
+        in_range (kvec (ckv a)) (cdeg a) u = true ->
+        Forall2 Qeq (curve_spec (kvec (ckv a)) (cdeg a) d Pa0 u) (curve_spec (kvec (ckv b)) (cdeg b) d Pb0 u)) ->
+       c_eq a b = Ok r -> r = true.
+Proof. exact c_eq_complete. Qed.
+Print Assumptions C13_complete_equal_degree.
+
+Theorem C13_complete_equal_degree_true :
+  forall (a b : curve) (Pa0 Pb0 : list pt) (d : nat),
+       cW a = None ->
+       cP a = Some Pa0 ->
+       WF (kvec (ckv a)) (cdeg a) ->
+       length Pa0 = cnpts a ->
+       Forall (fun q : pt => length q = d) Pa0 ->
+       cW b = None ->
+       cP b = Some Pb0 ->
+       WF (kvec (ckv b)) (cdeg b) ->
+       length Pb0 = cnpts b ->
+       Forall (fun q : pt => length q = d) Pb0 ->
+       cdeg b = cdeg a ->
+       UnionProofs.separated (kvec (ckv a) ++ kvec (ckv b)) ->
+       first_q (kvec (ckv a)) == first_q (kvec (ckv b)) ->
+       last_q (kvec (ckv a)) == last_q (kvec (ckv b)) ->
+       (forall u : Q,
+        in_range (kvec (ckv a)) (cdeg a) u = true ->
+        Forall2 Qeq (curve_spec (kvec (ckv a)) (cdeg a) d Pa0 u) (curve_spec (kvec (ckv b)) (cdeg b) d Pb0 u)) ->
+       (forall kn : kv,
+        kor (ckv a) (ckv b) = Ok kn ->
+        (exists T E : mat, spline2spline (ckv a) kn None = Ok (T, E)) /\
+        (exists T E : mat, spline2spline (ckv b) kn None = Ok (T, E))) -> c_eq a b = Ok true.
+Proof. exact c_eq_complete_true. Qed.
+Print Assumptions C13_complete_equal_degree_true.
